@@ -58,6 +58,11 @@ def jobs(tier):
                       final_destroy=1, settle_end=0))
     J.append(conc("0,1,0,0" if q else "1,1,0,0", flags=3, hmap=1, count_commit_order=0, init=8, ninit=3, init_keys=0x210, prog0=prog((K_DEL, 0)),
                   final_destroy=1, settle_end=0))
+    # overlapping resize requests: the target is reversed while a resize runs (levels released by the interrupted resize must not be
+    # touched or released again)
+    J.append(conc("2,0,0,0", workers=16, hmap=1, init=2, prog0=prog((K_RESIZE, 8), (K_RESIZE, 1)), prog1=prog((K_RESIZE, 1), (K_RESIZE, 8)),
+                  prog2=prog((K_LOOKUP, 1), (K_LOOKUP, 0)), **base))
+    J.append(conc("2,0,0,0", workers=16, hmap=1, init=4, prog0=prog((K_RESIZE, 8)), prog1=prog((K_RESIZE, 1)), final_destroy=1, **base))
     # sequences of explicit resizes (grow, shrink below, grow again: a level released by a shrink must not be reused) per allocator
     for mm in (0, 1, 2):
         J.append(seq(len=3 if q else 4, keys=1, hmap=1, alpha_seq=1, nresize=12, mm=mm, workers=8))
